@@ -8,7 +8,7 @@
 (*   Variant = "stale_den" | "relative_index" | "relative_subset" | "no_prior_term": TLC must   *)
 (*   refute an invariant (the runner checks that it does: the model has not lost its bite).     *)
 EXTENDS OSSPS, TLC
-CONSTANTS Variant, MaxLives
+CONSTANTS Variant, MaxLives, Rich
 
 (* ---- the toy system (PoissonLL's record `sys`): bins 1,2 in view 0, bins 3,4 in view 1 *)
 ToySys ==
@@ -22,12 +22,16 @@ ToyYq(kind) == IF kind = "consistent" THEN << 24, 12, 12, 16 >> ELSE << 24, 16, 
 ToyA == << 1, 1, 1, 1 >>
 ToyPrior(c) == IF c.prior THEN MakePrior(<< 1, 1, 2 >>, [i \in 1..27 |-> IF i \in {13, 15} THEN 1 ELSE 0], << >>, c.beta) ELSE << >>
 
+Alphas == IF Rich THEN { << 1, 0 >>, << 3, 2 >>, << 1, 1 >>, << 2, 0 >> } ELSE { << 1, 0 >>, << 3, 2 >> }
+Gammas == IF Rich THEN { << 0, 0 >>, << 1, 1 >>, << 1, 0 >>, << 3, 0 >> } ELSE { << 0, 0 >>, << 1, 1 >>, << 1, 0 >> }
+Inits == IF Rich THEN { << 256, 512 >>, << 0, 640 >>, << 300, 77 >>, << 1, 1 >>, << 640, 640 >> } ELSE { << 256, 512 >>, << 0, 640 >>, << 300, 77 >> }
 Configs ==
-  { c \in [N : {1, 2}, startSubset : {0, 1}, aN : {1, 3}, aK : {0, 2}, gN : {0, 1}, gK : {0, 1}, uInf : BOOLEAN, uN : {5}, uK : {1},
-           prior : BOOLEAN, dep : BOOLEAN, beta : {0, 2}, data : {"plain", "consistent"}, init : {<< 256, 512 >>, << 0, 640 >>, << 300, 77 >>}] :
+  { c \in [N : {1, 2}, startSubset : {0, 1}, aN : {1, 2, 3}, aK : {0, 1, 2}, gN : {0, 1, 3}, gK : {0, 1}, uInf : BOOLEAN,
+           uN : IF Rich THEN {5, 3} ELSE {5}, uK : {1},
+           prior : BOOLEAN, dep : BOOLEAN, beta : {0, 2}, data : {"plain", "consistent"}, init : Inits] :
       /\ c.startSubset < c.N
-      /\ << c.aN, c.aK >> \in { << 1, 0 >>, << 3, 2 >> } /\ << c.gN, c.gK >> \in { << 0, 0 >>, << 1, 1 >>, << 1, 0 >> }
-      /\ (c.prior <=> c.beta = 2) /\ (c.dep => c.prior)
+      /\ << c.aN, c.aK >> \in Alphas /\ << c.gN, c.gK >> \in Gammas
+      /\ (c.prior <=> c.beta = 2) /\ (c.dep => c.prior) /\ (c.uInf => c.uN = 5)
       /\ (c.data = "consistent" => (~c.prior /\ c.init = << 256, 512 >>)) }
 K(c) == 3 * c.N
 
@@ -109,10 +113,11 @@ InvSchedule == lastStep # << >> => (lastStep.n = RelaxationIndex(lastStep.k, c.N
 \* "resuming from a saved iterate reproduces the uninterrupted run" (also on a used object, also after set_up + run again)
 InvResume == lastStep # << >> => lastStep.match
 \* consequences of the law: the update never moves against the gradient (D > 0, zeta > 0, the clamp only shortens the move) ...
+InBounds(x) == x >= 0 /\ (c.uInf \/ x <= UFx)
 InvAscentDirection ==
-  lastStep # << >> => \A v \in 1..2 : (lam[v] - lastStep.from[v]) * lastStep.ng[v] >= 0
-\* ... and an image that explains the data exactly (zero gradient, no prior) is a fixed point
-InvFixedPoint == (c.data = "consistent" /\ phase # "new") => lam = c.init
+  lastStep # << >> => \A v \in 1..2 : InBounds(lastStep.from[v]) => (lam[v] - lastStep.from[v]) * lastStep.ng[v] >= 0
+\* ... and an image inside the bounds that explains the data exactly (zero gradient, no prior) is a fixed point
+InvFixedPoint == (c.data = "consistent" /\ phase # "new" /\ \A v \in 1..2 : InBounds(c.init[v])) => lam = c.init
 \* bookkeeping of the object: a run never goes beyond its last sub-iteration
 InvObject == o.k <= K(c) + 1 /\ (phase = "done" => ~CanStep(o))
 
